@@ -33,8 +33,6 @@ Theorem cog_geometry_guards :
           i_Cog11 geometry gamma beta rho0 temp0 Gamma <-> cog_any_geom geometry) /\
          (forall geometry gamma beta rho0 u0 Gamma : R,
           i_Cog12 geometry gamma beta rho0 u0 Gamma <-> cog_23_geom geometry) /\
-         (forall geometry gamma rho0 alpha beta lambda0 Gamma : R,
-          i_Cog14 geometry gamma rho0 alpha beta lambda0 Gamma <-> cog_any_geom geometry) /\
          (forall geometry gamma alpha beta lambda0 Gamma : R,
           i_Cog17 geometry gamma alpha beta lambda0 Gamma <-> cog_any_geom geometry).
 Proof. exact cog_geometry_guards_proof. Qed.
@@ -53,6 +51,13 @@ Theorem cog_special_guards :
           i_Cog20 geometry gamma rho0 u0 a Gamma <-> cog20_doc_ok geometry a).
 Proof. exact cog_special_guards_proof. Qed.
 Print Assumptions cog_special_guards.
+
+(* Coggeshall 14: the constructor accepts exactly the parameter sets for which the documented temperature amplitude is a real
+   positive number (b / (k - b) > 0; in particular never planar geometry). *)
+Theorem cog14_guards : forall geometry gamma rho0 alpha beta lambda0 Gamma,
+  i_Cog14 geometry gamma rho0 alpha beta lambda0 Gamma <-> cog14_doc_ok geometry alpha beta.
+Proof. exact cog14_guards_proof. Qed.
+Print Assumptions cog14_guards.
 
 Theorem ehep_guards :
   forall geometry gamma D_ rho_0 up xtilde xmax tmax : R,
